@@ -82,9 +82,9 @@ def gStep (g : Ghost) : Op → Ghost
     let g1 := if g.conf.fileEnabled then gFlush g else g
     { log := g1.log.filter (fun x => x.2 ≠ .mem),
       conf := { g1.conf with memSize := m, fileEnabled := f, enabled := en } }
-  | .putConf en ivlMs ign =>
+  | .putConf en an ivlMs ign =>
     if ivlMs < minIvlMs ∨ ivlMs > maxIvlMs then g
-    else { g with conf := { g.conf with enabled := en, ivl := ivlMs * msNs, ignored := ign } }
+    else { g with conf := { g.conf with enabled := en, anonymize := an, ivl := ivlMs * msNs, ignored := ign } }
   | .setClients tbl => { g with conf := { g.conf with clients := tbl } }
 
 def gInit (c : Conf) : Ghost := { log := [], conf := c }
@@ -208,11 +208,22 @@ def ignoredNow (c : Conf) (e : Entry) : Bool := isIgnored c e.host || clientIgno
 def visible (g : Ghost) (a : Ask) : List Entry :=
   g.visibleLog.reverse.filter (fun e => !ignoredNow g.conf e && satisfies g.conf a e)
 
-/-- The answer of the API as observed: entry ids (with "payload intact" flag) and
-the `oldest` cursor. -/
+/-- One entry of the answer as observed: which recorded query it is, whether
+question, answer, upstream and filtering result are those it was recorded with,
+and the client address reported. -/
+structure Item where
+  id : Nat
+  payloadOK : Bool
+  client : Bytes
+
+/-- The answer of the API as observed: entries and the `oldest` cursor. -/
 structure Page where
-  items : List (Nat × Bool)
+  items : List Item
   oldest : Option Int
+
+/-- The client an entry must be reported with: the address it was recorded
+with — masked if, and only if, anonymisation is on NOW. -/
+def reportedClient (c : Conf) (e : Entry) : Bytes := if c.anonymize then e.ipAnon else e.ip
 
 inductive Answer where
   | crash
@@ -243,10 +254,13 @@ def specSearch (g : Ghost) (r : Req) (ans : Answer) : Option String :=
     | none => none
     | some a =>
       let vis := visible g a
-      let ids := p.items.map (·.1)
+      let ids := p.items.map (·.id)
       -- every returned entry is a recorded entry satisfying the filters, newest first, once
       if !(ids.isSublist (vis.map (·.id))) then some "C07.unsound"
-      else if !p.items.all (·.2) then some "C07.payload"
+      -- ... reported with the client it was recorded with
+      else if !((p.items.map (fun it => (it.id, it.client))).isSublist
+                (vis.map (fun e => (e.id, reportedClient g.conf e)))) then some "C07.client"
+      else if !p.items.all (·.payloadOK) then some "C07.payload"
       else if ids.length > a.limit then some "C07.limit"
       else if a.limit = 0 then none
       else
@@ -281,7 +295,7 @@ def modelAnswer (sd : Int) (s : State) (r : Req) : Answer :=
   match handle sd s r with
   | .error _ => .crash
   | .ok .bad => .status 400
-  | .ok (.ok es o) => .ok { items := es.map (fun e => (e.id, true)), oldest := o }
+  | .ok (.ok es o) => .ok { items := es.map (fun e => ⟨e.id, true, shownClient s.conf e⟩), oldest := o }
 
 /-- The monitor's verdict on the model's own behaviour at one event. -/
 def modelEventOK (g : Ghost) (s : State) : Event → Bool
